@@ -1,6 +1,8 @@
 #!/usr/bin/env python3
-"""Classifies Go race-detector logs: counts reports, deduplicates by the pair of outermost tibc-go / harness frames,
-and separates reports that involve tibc-go module code from those confined to dependencies or the harness itself."""
+"""Classifies Go race-detector logs. A report implicates tibc-go only when the racing memory access itself (the top frame
+of the read or the write stack) is in tibc-go module code; reports whose accesses are inside dependencies (SDK store, IAVL,
+memdb) or the harness are listed separately (the harness queries committed state concurrently with Commit, which those
+layers do not synchronise). Reports are deduplicated by the pair of access sites."""
 import sys, re, json, glob
 files = []
 for a in sys.argv[2:]:
@@ -10,17 +12,19 @@ for f in files:
     txt = open(f, errors="replace").read()
     for blk in txt.split("WARNING: DATA RACE")[1:]:
         blk = blk.split("==================")[0]
-        frames = re.findall(r"^\s+([\w./\-*()\[\]]+)\(\)\n\s+(\S+?):(\d+)", blk, re.M)
-        reports.append(frames)
-def is_tibc(fr):  return "bianjieai/tibc-go/modules" in fr[0] or "/repo/modules" in fr[1]
+        tops = []
+        for m in re.finditer(r"^(?:Previous )?(?:[Rr]ead|[Ww]rite|atomic \w+) at \S+ by [^\n]*\n\s+(\S+)\(\)\n\s+(\S+?):(\d+)", blk, re.M):
+            tops.append((m.group(1), m.group(2), m.group(3)))
+        reports.append(tops)
+def is_tibc(fr):  return "bianjieai/tibc-go/modules" in fr[0] or fr[1].startswith("/repo/modules")
 def is_harness(fr): return fr[0].startswith("verif/") or "/verif/harness" in fr[1]
 seen = {}
-for fr in reports:
-    tibc = [x for x in fr if is_tibc(x)]
-    key = tuple(sorted(set(x[0] for x in tibc))) if tibc else tuple(sorted(set(x[0] for x in fr[:2])))
-    d = seen.setdefault(key, {"count": 0, "tibc": bool(tibc), "harness_only": (not tibc) and any(is_harness(x) for x in fr), "frames": [f"{x[0]} {x[1]}:{x[2]}" for x in (tibc or fr)[:6]]})
+for tops in reports:
+    key = tuple(sorted(f"{t[0]} {t[1]}:{t[2]}" for t in tops))
+    d = seen.setdefault(key, {"count": 0, "tibc": any(is_tibc(t) for t in tops), "harness": any(is_harness(t) for t in tops), "access_sites": list(key)})
     d["count"] += 1
 out = {"reports": len(reports), "distinct": len(seen), "tibc_reports": sum(v["count"] for v in seen.values() if v["tibc"]),
-       "distinct_tibc": [v for v in seen.values() if v["tibc"]], "others": [v for v in seen.values() if not v["tibc"]][:10]}
+       "distinct_tibc": [{"count": v["count"], "frames": v["access_sites"]} for v in seen.values() if v["tibc"]],
+       "others": [{"count": v["count"], "access_sites": v["access_sites"]} for v in sorted(seen.values(), key=lambda v: -v["count"]) if not v["tibc"]][:12]}
 json.dump(out, open(sys.argv[1], "w"), indent=1)
-print("race reports:", out["reports"], "distinct:", out["distinct"], "involving tibc-go code:", out["tibc_reports"])
+print("race reports:", out["reports"], "distinct access-site pairs:", out["distinct"], "with an access in tibc-go code:", out["tibc_reports"])
